@@ -897,7 +897,8 @@ class XsdAssertionFacet(XsdFacet):
                 raise XMLSchemaValidationError(self, value, reason)
         except TypeError as err:
             self.invalid_type_error(err, value)
-        except ElementPathError as err:
+        except (ElementPathError, ArithmeticError) as err:
+            # ArithmeticError: out of range values (e.g. a huge integer compared with a double)
             raise XMLSchemaValidationError(self, value, reason=str(err)) from None
 
 
